@@ -35,6 +35,7 @@ NU_IDS = ["electron_neutrino", "electron_antineutrino", "muon_neutrino", "muon_a
 
 F8_KEY = "propagate-rejects-attenuation_interpolation"
 META_KEY = "ray-path-without-_metadata"
+NAN_KEY = "viewing-angle-nan-direction-along-ray"
 
 ALL_CHECKS = frozenset(["align", "values", "weights", "writer", "triggers"])
 
@@ -146,7 +147,7 @@ def point_specs(draw, medium, kinds):
 
 
 @st.composite
-def antenna_specs(draw, medium, pkinds=("in", "in", "in", "shallow", "far", "outside")):
+def antenna_specs(draw, medium, pkinds=("in", "in", "in", "in", "in", "shallow", "shallow", "far", "outside")):
     pos = draw(point_specs(medium, pkinds))
     kind = draw(st.sampled_from(["antenna", "antenna", "dipole", "dipole", "system"]))
     spec = dict(kind=kind, pos=pos["p"], pkind=pos["kind"])
@@ -171,7 +172,7 @@ def time_specs(draw):
 @st.composite
 def weight_values(draw):
     """(survival, interaction, forced) weights of a particle."""
-    w = lambda: draw(st.sampled_from([None, 0.0, 1.0, 0.5, 0.25, 0.125, 1e-3]))  # noqa: E731
+    w = lambda: draw(st.sampled_from([None, 0.0, 1.0, 1.0, 0.5, 0.5, 0.25, 0.125, 1e-3]))  # noqa: E731
     kind = draw(st.sampled_from(["none", "both", "both", "forced", "partial", "float"]))
     if kind == "none":
         return None, None, None
@@ -204,7 +205,7 @@ def direction_specs(draw, n_ant):
 
 
 @st.composite
-def particle_specs(draw, medium, n_ant, vkinds=("in", "in", "in", "shallow", "outside")):
+def particle_specs(draw, medium, n_ant, vkinds=("in", "in", "in", "in", "in", "in", "shallow", "outside")):
     vtx = draw(point_specs(medium, vkinds))
     sw, iw, fw = draw(weight_values())
     em = draw(st.sampled_from([0.0, 1.0, None, None]))
@@ -215,13 +216,30 @@ def particle_specs(draw, medium, n_ant, vkinds=("in", "in", "in", "shallow", "ou
                 had=draw(floats(0.0, 1.0)) if had is None else had, sw=sw, iw=iw, fw=fw)
 
 
+# An antenna that already holds k Askaryan (function-backed) signals takes about 3^k ms to
+# receive the next one: every copy of a filtered signal deep-copies the antenna behind the
+# bound frequency_response, which holds the earlier signals, which hold copies of the antenna...
+# (12 signals: ~1 min per receive).  Cases therefore keep at most SIGNAL_CAP signals on an
+# antenna between two clears, by construction.
+SIGNAL_CAP = 6
+
+
+def max_solutions(medium):
+    if medium["tracer"] in ("specialized", "basic"):
+        return 2
+    if medium["tracer"] == "uniform":
+        return 2 * medium["max_ref"] + 1
+    return 2 + 3 * medium["max_ref"]
+
+
 @st.composite
 def event_lists(draw, medium, n_ant, max_events=3, max_particles=3, vkinds=None):
     kw = {} if vkinds is None else dict(vkinds=vkinds)
+    most = max(1, min(max_particles, SIGNAL_CAP // max_solutions(medium)))
     evs = []
     for _ in range(draw(st.integers(1, max_events))):
         ps = [draw(particle_specs(medium, n_ant, **kw))
-              for _ in range(draw(st.sampled_from([1, 1, 2, max_particles])))]
+              for _ in range(draw(st.sampled_from([1, 1, min(2, most), most])))]
         evs.append(dict(particles=ps, tree=draw(st.booleans())))
     return evs
 
@@ -239,10 +257,10 @@ def generator_specs(draw, medium, n_ant, kinds=("list", "list", "cyl", "rect", "
                     flavor=draw(st.sampled_from([[1, 1, 1], [1, 0, 0], [0, 1, 1], [1, 2, 0]])),
                     source=draw(st.sampled_from(["cosmogenic", "pp"])))
         if kind == "cyl":
-            spec["dr"] = draw(log_floats(50.0, 4000.0))
+            spec["dr"] = draw(log_floats(50.0, 1500.0))
         else:
-            spec["dx"] = draw(log_floats(50.0, 6000.0))
-            spec["dy"] = draw(log_floats(50.0, 6000.0))
+            spec["dx"] = draw(log_floats(50.0, 2500.0))
+            spec["dy"] = draw(log_floats(50.0, 2500.0))
         return spec
     evs = draw(event_lists(medium, n_ant, **kw))
     spec = dict(kind=kind, events=evs)
@@ -299,8 +317,8 @@ def _offcone(draw):
 
 
 def _weight_min(draw):
-    return draw(st.sampled_from([None, None, 0.0, 1e-3, 0.125, 0.25, 0.5, 1.0, [0.5, 0.25], [0.0, 0.0],
-                                 [0.25, 0.0], [0.0, 0.125], [1.0, 1.0], [1e-3, 1e-3]]))
+    return draw(st.sampled_from([None, None, None, None, None, None, 0.0, 1e-3, 0.125, 0.25, 1.0,
+                                 [0.5, 0.25], [0.0, 0.0], [0.25, 0.0], [0.0, 0.125], [1e-3, 1e-3]]))
 
 
 @st.composite
@@ -330,6 +348,14 @@ def kernel_cases(draw, tracers=None, models=MODELS, gen_kinds=("list", "list", "
         for op in ops:
             op["extra_throws"] = min(op["extra_throws"], budget)
             budget -= op["extra_throws"]
+    # keep the signals accumulated on one antenna below SIGNAL_CAP (see there)
+    per_event = max_solutions(medium) * (max(len(e["particles"]) for e in gen["events"])
+                                         if gen["kind"] in ("list", "file") else 1)
+    held = 0
+    for op in ops:
+        if held + per_event > SIGNAL_CAP:
+            op["clear"] = True
+        held = per_event if op["clear"] else held + per_event
     return dict(medium=medium, model=draw(st.sampled_from(list(models))), times=draw(time_specs()),
                 antennas=ants, container=container, gen=gen,
                 offcone_max=offcone(draw) if offcone else _offcone(draw),
@@ -859,6 +885,10 @@ def _run_case(case, rec, checks, tmpdir, opened):
         parts_ref = list(ev_ref)
         entries, passing = reference_entries(case, solver, parts_ref, flat_specs)
         before = [len(a.signals) for a in flat]
+        if max(b_ + len(e_) for b_, e_ in zip(before, entries)) > SIGNAL_CAP + 3:
+            # cannot happen with the shipped strategies; hand-written replays are refused rather
+            # than left running for hours (see SIGNAL_CAP)
+            raise ValueError("case would put more than %d signals on one antenna" % (SIGNAL_CAP + 3))
         spy_before = [len(spy_of(a)) for a in flat]
         n_adds = len(writer.adds) if isinstance(writer, RecordingWriter) else 0
         n_trig = len(trig_log)
@@ -930,10 +960,12 @@ def _run_case(case, rec, checks, tmpdir, opened):
                     any_cut = True
                 elif en.cut is False:
                     any_oncone = True
-                if "align" in checks or "values" in checks:
+                if ("align" in checks or "values" in checks) and en.cut:
+                    # (values of kept signals are only evaluated by `values`: evaluation runs the
+                    #  Askaryan model, whose own failures are C07's subject)
                     vals = np.asarray(sig.values)
                     require(vals.shape == grid.shape, "%s: %d values on %d times", what, len(vals), len(grid))
-                    if en.cut:
+                    if True:  # noqa (keeps the block's indentation)
                         require(not np.any(vals != 0),
                                 "%s: viewing angle %.6f deg is %.6f deg off the Cherenkov angle, beyond "
                                 "offcone_max=%r, but the signal is not empty (max |v| = %r)", what,
@@ -945,8 +977,28 @@ def _run_case(case, rec, checks, tmpdir, opened):
                             "%s: off-cone, but the antenna was not handed an empty signal", what)
                 if "values" in checks and en.cut is not None:
                     ref = reference_signal(case, solver, en, twins[ia], times)
-                    want = np.asarray(ref.values, dtype=float)
+                    try:
+                        want = np.asarray(ref.values, dtype=float)
+                    except Exception as exc:   # the components themselves fail on this input
+                        classes.add("component_error")
+                        try:
+                            sig.values
+                        except Exception as exc2:
+                            require(type(exc2) is type(exc), "%s: evaluating the kernel's signal raised %r, "
+                                    "evaluating the recomputed one %r", what, exc2, exc)
+                        else:
+                            raise Violation("%s: the recomputed signal cannot be evaluated (%r) but the "
+                                            "kernel's can" % (what, exc))
+                        continue
                     got_v = np.asarray(sig.values, dtype=float)
+                    require(got_v.shape == grid.shape, "%s: %d values on %d times", what, len(got_v), len(grid))
+                    if math.sin(en.psi) < 1e-7 and not en.cut:
+                        # particle moving along the ray: the polarization (rejection of d from e)
+                        # is pure rounding noise in any formula; the pulse itself vanishes there
+                        classes.add("aligned")
+                        require(np.all(np.isfinite(got_v)) or not np.all(np.isfinite(want)),
+                                "%s: non-finite signal for a particle moving along the ray (psi=%r)", what, en.psi)
+                        continue
                     if en.cut:
                         require(not np.any(got_v != 0), "%s: off-cone signal not zero", what)
                     else:
@@ -1255,12 +1307,36 @@ def _case_vertices(case):
     return out
 
 
+def _direction_beyond_unit_dot(case):
+    """True when a listed particle's direction and a ray's emitted direction have a float dot
+    product outside [-1, 1] (the kernel's arccos then returns NaN)."""
+    gs = case["gen"]
+    if gs["kind"] not in ("list", "file"):
+        return False
+    from pyrex.internal_functions import normalize
+    solver = Solver(case["medium"])
+    aspecs = effective_antenna_specs(case)
+    for es in gs["events"]:
+        for ps in es["particles"]:
+            d = normalize(resolve_direction(ps, solver, aspecs, case["offcone_max"])[0])
+            for a in aspecs:
+                for path in solver.solutions(ps["vertex"], a["pos"]):
+                    if abs(float(np.vdot(path.emitted_direction, d))) > 1.0:
+                        return True
+    return False
+
+
 def classify(case, exc):
     msg = str(exc)
     if isinstance(exc, TypeError) and "attenuation_interpolation" in msg:
         return F8_KEY
     if isinstance(exc, AttributeError) and "_metadata" in msg and "RayTracePath" in msg:
         return META_KEY
+    try:
+        if _direction_beyond_unit_dot(case):
+            return NAN_KEY
+    except Exception:
+        pass
     ice = case["medium"]["ice"]
     if case["medium"]["tracer"] in ("specialized", "basic") and not isinstance(exc, Violation):
         for v in _case_vertices(case):
@@ -1314,36 +1390,41 @@ PROPERTY = Property(
                       "with 0-2 reflections, layered) x Askaryan model (ARZ, AVZ, ZHS, ARVZ) x "
                       "attenuation_interpolation (None, 0.1, 1) x writer (none, recording double, real File); "
                       "non-trivial = a signal was delivered",
-                 floors={"uniform": 0.1, "layered": 0.1, "specialized": 0.1, "basic": 0.1,
-                         "writer=file": 0.15, "view=on": 0.4},
+                 floors={"uniform": 0.04, "layered": 0.05, "specialized": 0.06, "basic": 0.07,
+                         "writer=file": 0.025, "writer=double": 0.07, "view=on": 0.3, "view=off": 0.09,
+                         "ai=0.1": 0.07, "ai=1": 0.1, "ai=None": 0.18},
                  classify=classify),
-        SubCheck("align", align_cases(), make_check("align"), quick=200, thorough=8000, quick_shards=8,
+        SubCheck("align", align_cases(), make_check("align"), quick=200, thorough=8000, quick_shards=5,
                  rule="full configuration space (tracer x ice x model x generator x 1-4 antennas of three kinds in "
                       "list/tuple/Detector x offcone_max x weight_min x interpolation x triggers x writer), 1-3 "
                       "kernel events; non-trivial = at least one signal delivered and not the default configuration",
-                 floors={"offcone_cut": 0.1, "oncone": 0.2, "no_solution_antenna": 0.15, "multi_particle": 0.1,
-                         "gen=cyl": 0.05, "gen=rect": 0.05, "gen=file": 0.05, "layered": 0.05, "basic": 0.05},
+                 floors={"offcone_cut": 0.1, "oncone": 0.25, "no_solution_antenna": 0.2, "multi_particle": 0.09,
+                         "gen=cyl": 0.06, "gen=rect": 0.05, "gen=file": 0.05, "layered": 0.03, "basic": 0.04,
+                         "shadowed_then_visible": 0.02, "multi_event": 0.2, "accumulating": 0.07,
+                         "container=detector": 0.08},
                  classify=classify),
-        SubCheck("values", values_cases(), make_check("values"), quick=160, thorough=6000, quick_shards=8,
+        SubCheck("values", values_cases(), make_check("values"), quick=160, thorough=6000, quick_shards=5,
                  rule="list/cylindrical/file generators, 1-2 antennas: every delivered signal recomputed from fresh "
                       "components; non-trivial = at least one signal delivered",
-                 floors={"oncone_nonzero": 0.3, "offcone_cut": 0.1},
+                 floors={"oncone_nonzero": 0.25, "offcone_cut": 0.1, "layered": 0.05, "basic": 0.03,
+                         "aligned": 0.05},
                  classify=classify),
-        SubCheck("weights", weights_cases(), make_check("weights"), quick=200, thorough=8000, quick_shards=6,
+        SubCheck("weights", weights_cases(), make_check("weights"), quick=200, thorough=8000, quick_shards=4,
                  rule="listed multi-particle events with survival/interaction/forced weights from a small lattice "
                       "(so that weights equal to the minimum occur) x float and tuple minima; non-trivial = "
                       "a signal delivered",
-                 floors={"particle_cut": 0.2, "cut_and_pass": 0.05, "weight_equals_min": 0.1},
+                 floors={"particle_cut": 0.18, "cut_and_pass": 0.06, "weight_equals_min": 0.06},
                  classify=classify),
-        SubCheck("writer", writer_cases(), make_check("writer"), quick=160, thorough=6000, quick_shards=8,
+        SubCheck("writer", writer_cases(), make_check("writer"), quick=160, thorough=6000, quick_shards=4,
                  rule="as align, always with a writer (recording double or real File in a temporary directory); "
                       "non-trivial = a signal delivered",
-                 floors={"writer=file": 0.1, "writer=double": 0.4, "shadow_rethrow": 0.02, "extra_throws": 0.1},
+                 floors={"writer=file": 0.06, "writer=double": 0.35, "shadow_rethrow": 0.05, "extra_throws": 0.17,
+                         "multi_event": 0.19, "offcone_cut": 0.1},
                  classify=classify),
-        SubCheck("triggers", triggers_cases(), make_check("triggers"), quick=160, thorough=6000, quick_shards=6,
+        SubCheck("triggers", triggers_cases(), make_check("triggers"), quick=160, thorough=6000, quick_shards=3,
                  rule="as align, always with a trigger function or dict (1-4 keys, 'global' at any position); "
                       "non-trivial = a signal delivered",
-                 floors={"trig=dict": 0.3, "trig=func": 0.1},
+                 floors={"trig=dict": 0.2, "trig=func": 0.17, "writer=file": 0.04},
                  classify=classify),
     ],
     assumptions=[
